@@ -340,7 +340,14 @@ fn check_pair(p: &Pair) -> Result<PairVerdict, String> {
 // ---------- acceptance matrix ----------
 
 /// (option text, documented targets)
-const MATRIX: [(&str, &[Target]); 17] = [
+const MATRIX: [(&str, &[Target]); 23] = [
+    // `?` belongs to `Send` only: in front of another option's name it makes an unknown option
+    ("?export", &[]),
+    ("?no_deps = false", &[]),
+    ("?unimock = false", &[]),
+    ("?mockall", &[]),
+    ("?mock_api = TheMock", &[]),
+    ("?delegate_by = ref", &[]),
     ("?Send = true", &[Target::Fn, Target::Mod, Target::Trait]),
     ("no_deps", &[Target::Fn]),
     ("no_deps = true", &[Target::Fn]),
